@@ -330,6 +330,7 @@ func (ex *Exec) siteOrdinal(fn *ssa.Function, instr ssa.Instruction, substr stri
 func (ex *Exec) pseudoFrame(fn *ssa.Function, key string, sp *FuncSpec, args []Val, binds []Val, st *State) *Frame {
 	pf := ex.newFrame(fn, 0)
 	pf.spec = sp
+	pf.pseudo = true
 	pf.params = args
 	for i, p := range fn.Params {
 		if i < len(args) {
@@ -352,6 +353,7 @@ func (ex *Exec) pseudoFrame(fn *ssa.Function, key string, sp *FuncSpec, args []V
 
 func (ex *Exec) contractCall(st *State, fr *Frame, instr ssa.Instruction, fn *ssa.Function, key string, sp *FuncSpec, args []Val, binds []Val, resT types.Type) Val {
 	ex.use("contract:" + key)
+	st.bump("call:" + key)
 	pf := ex.pseudoFrame(fn, key, sp, args, binds, st)
 	ord := 0
 	if instr != nil {
@@ -490,7 +492,7 @@ func (ex *Exec) builtin(st *State, fr *Frame, instr ssa.Instruction, b *ssa.Buil
 			ex.disciplineMap(st, fr, instr, a, false)
 			return ex.mkVal(resT, ex.mapLen(st, a))
 		case *types.Chan:
-			return ex.mkVal(resT, st.read("chlen", "Int", a.T))
+			return ex.mkVal(resT, st.read(chlenArr(a), "Int", a.T))
 		}
 		lv := ex.mkVal(resT, "(slen "+a.T+")")
 		if a.S == "String" {
@@ -590,6 +592,7 @@ func (ex *Exec) doSend(st *State, fr *Frame, instr ssa.Instruction, ch Val, v Va
 	ex.blockingUnderLock(st, fr, instr, ch, blocking)
 	st.bump(name)
 	st.bump("send")
+	st.write(chlenArr(ch), "Int", ch.T, "(+ "+st.read(chlenArr(ch), "Int", ch.T)+" 1)")
 }
 
 func (ex *Exec) doRecv(st *State, fr *Frame, instr ssa.Instruction, ch Val, commaOk bool, resT types.Type) Val {
@@ -705,6 +708,7 @@ func (ex *Exec) doSendSel(st *State, fr *Frame, instr ssa.Instruction, idx int, 
 	ex.selectUnderLock(st, fr, sel, ch)
 	st.bump(name)
 	st.bump("send")
+	st.write(chlenArr(ch), "Int", ch.T, "(+ "+st.read(chlenArr(ch), "Int", ch.T)+" 1)")
 }
 
 // sendMsgInv: a message sent on a channel must satisfy the invariant of the channel's class.
@@ -727,4 +731,15 @@ func (ex *Exec) firstLabels(sp *FuncSpec) []string {
 		return c.Labels
 	}
 	return nil
+}
+
+// chlenArr: queue-length ghost array, one per channel element type (channels of different
+// element types never alias).
+func chlenArr(ch Val) string {
+	if ch.Typ != nil {
+		if ct, ok := types.Unalias(ch.Typ).Underlying().(*types.Chan); ok {
+			return "chlen." + smtSym(types.TypeString(ct.Elem(), func(p *types.Package) string { return p.Name() }))
+		}
+	}
+	return "chlen"
 }
